@@ -97,6 +97,7 @@ def main():
         rows.append((name, clause, files, ", ".join(caught) or "**none**", "; ".join(sorted(set(keys))[:2])[:150],
                      STRENGTHENED.get(name, "")))
     n, c, s = len(rows), sum(1 for r in rows if r[3] != "**none**"), sum(1 for r in rows if r[5])
+    own = sum(1 for r in rows if r[0].split("-")[0] in r[3].split(", "))
     out = ["## 12. Seeded changes: which checks catch which", "",
            "Generated by `tools/design12.py` from `/verif/seeded/*/meta.json` (do not edit by hand).", "",
            "The seeded changes (three rounds of 40: two per property and round) were written by fresh sub-agents that were given only the text of one property and a",
@@ -106,7 +107,8 @@ def main():
            "(exit 0 on the clean tree, 1 with the patch) and `meta.json`.  `tools/seedcheck.py <dir> <ID>` confirms the demo",
            "in a scratch worktree and runs the registered quick check against the patched tree; `--inplace` does the same",
            "with `git -C /repo apply` / `git -C /repo checkout -- .`.  None of these changes was ever committed to /repo.", "",
-           f"Result: **{c} of {n}** are caught by the quick tier of the property's own check; {s} of them were missed by the",
+           f"Result: **{c} of {n}** are caught by at least one registered check ({own} by the property's own check, the others by a",
+           "neighbouring property's check: column *caught by*; C09-5 also by C09's thorough tier); " + f"{s} of them were missed by the",
            "first version of that check and are caught after the check was strengthened (last column: what was added —",
            "always a new family of inputs / histories generated from the specification, never a special case for the seed).",
            "", "| seed | clause broken | file(s) | caught by (quick) | violation key | what had to be added |", "|---|---|---|---|---|---|"]
